@@ -101,10 +101,7 @@ package s2
 //@   modifies l.bound, l.subregionBound
 //@   ensures [sub-bound] vcSubBoundOK(l)
 
-//@ func (p *Polygon) initLoopProperties()
-//@   assumed "float geometry and index build on decoded coordinates: outside the decoder boundary"
-//@   requires p != nil
-//@   modifies *p
+// initLoopProperties: contract in vc_bounds_verif.go (C10, verified; used by the compressed polygon decoder)
 
 //@ func facePiQitoXYZ(face int, pi, qi uint32, level int) r3.Vector
 //@   assumed "float-only computation; face is reduced by a switch with default"
@@ -285,6 +282,7 @@ package s2
 //@   ensures [err-kept] vcErrKept(d, old(d.err), old(vcErrorRaised()))
 //@   ensures vcDecoderOK(d)
 //@   loop 1 (rangeindex int): invariant vcDecoderOK(d) && p != nil && vcErrKept(d, old(d.err), old(vcErrorRaised()))
+//@   loop 1: invariant [loops-set] forall k int :: 0 <= k && k <= rangeindex ==> p.loops[k] != nil
 
 //@ func (p *Polygon) Decode(r io.Reader) error
 //@   requires p != nil && r != nil
